@@ -111,6 +111,15 @@ func checkC01(c RoutingCase) (vs []*Violation) {
 				if e.SelDoc != r.ID || e.SelMethod != r.Method || normSlash(e.SelPath) != want {
 					vs = append(vs, viol("", "%s ran %s [%s]: %s saw selected route doc=%q method=%q path=%q", where, id, decl, e.Kind, e.SelDoc, e.SelMethod, e.SelPath))
 				}
+				if r.Style&harness.StyleDocs != 0 && (e.SelOp != "op-"+r.ID || e.SelMeta != r.ID) {
+					vs = append(vs, viol("", "%s ran %s [%s]: %s saw selected route operation=%q metadata=%q (declared op-%s, %s)", where, id, decl, e.Kind, e.SelOp, e.SelMeta, r.ID, r.ID))
+				}
+				if strings.Join(e.SelCons, ",") != strings.Join(s.EffConsumes(r), ",") {
+					vs = append(vs, viol("", "%s ran %s [%s]: %s saw selected route consumes=%v, declared %v", where, id, decl, e.Kind, e.SelCons, s.EffConsumes(r)))
+				}
+			}
+			if r.Style != 0 {
+				labels = append(labels, "ran_route_written_in_another_builder_style")
 			}
 			if len(seenLevels) >= 3 {
 				labels = append(labels, "ran_with_filters_on_3_levels")
